@@ -10,9 +10,12 @@ derives the *pre-image* byte string exactly (`preimage`) and leaves the hash as 
 `Cfg.H : Bytes → κ`: an injective function parameter in the proofs (a hypothesis where needed,
 never an axiom), the identity in the stateful driver, real SHA-256 in the `namekey` driver.
 
-Addresses are symbolic strings; `Cfg.addrOk` says whether `sdk.AccAddressFromBech32` succeeds,
-`Cfg.hasAccount` whether the auth keeper knows the account (attribute keeper's PurgeAttribute
-needs it, x/attribute/keeper/keeper.go:444).
+Addresses are symbolic strings AS WRITTEN in a message or genesis file; `Cfg.addrOk` says whether
+`sdk.AccAddressFromBech32` succeeds on the string, `Cfg.canon` gives the canonical spelling
+`addr.String()` of the address it parses to (bech32 accepts an all-upper-case spelling of every
+address; the keeper functions take the parsed `sdk.AccAddress` and store / compare its canonical
+string), `Cfg.hasAccount` whether the auth keeper knows the account (attribute keeper's
+PurgeAttribute needs it, x/attribute/keeper/keeper.go:444).
 -/
 import PvModel.Util
 
@@ -137,6 +140,9 @@ structure Cfg (κ : Type) where
   authority : Addr
   /-- `sdk.AccAddressFromBech32` succeeds -/
   addrOk : Addr → Bool
+  /-- `addr.String()` of the address `sdk.AccAddressFromBech32` parses from the string: the
+  canonical (lower-case) spelling.  Meaningful where `addrOk` holds. -/
+  canon : Addr → Addr := id
   /-- the auth keeper has an account for the address -/
   hasAccount : Addr → Bool
 
@@ -241,6 +247,15 @@ record address is that address. -/
 def getRecordsByAddress (st : State κ) (addr : Addr) : List Record :=
   ((st.idx.filter fun e => e.1.1 = addr).map (·.2)).filter fun r => r.addr = addr
 
+/-- the `ReverseLookup` query (keeper/query_server.go:40): the request's address string is parsed
+for the index prefix, but the index entries are then filtered by comparing the record's address
+with the request string AS WRITTEN (query_server.go:59) — for a non-canonical spelling of an
+address nothing passes the filter. -/
+def reverseLookup (st : State κ) (addr : Addr) : Except Err (List Bytes) :=
+  if !cfg.addrOk addr then .error .invalidAddress
+  else .ok ((((st.idx.filter fun e => e.1.1 = cfg.canon addr).map (·.2)).filter
+    fun r => r.addr = addr).map (·.name))
+
 /-- `strings.TrimRight(n, ".")` -/
 def trimRightDots (s : Bytes) : Bytes := (s.reverse.dropWhile (· == dot)).reverse
 
@@ -263,7 +278,7 @@ def createRootName (st : State κ) (name : Bytes) (owner : Addr) (restricted : B
     Except Err (State κ) :=
   if (getRecordByName cfg st name).isSome then .error .alreadyBound
   else if !cfg.addrOk owner then .error .other
-  else createRootLoop cfg owner restricted (splitDot name).reverse [] st
+  else createRootLoop cfg (cfg.canon owner) restricted (splitDot name).reverse [] st
 
 /-! ### messages (x/name/types/msgs.go, x/name/keeper/msg_server.go) -/
 
@@ -302,14 +317,14 @@ def bindName (st : State κ) (pn : Bytes) (pa : Addr) (rn : Bytes) (ra : Addr) (
   match getRecordByName cfg st pn with
   | none => .error .invalidRequest
   | some record =>
-    if record.restricted && (!cfg.addrOk pa || !resolvesTo cfg st pn pa) then .error .invalidRequest
+    if record.restricted && (!cfg.addrOk pa || !resolvesTo cfg st pn (cfg.canon pa)) then .error .invalidRequest
     else
       match normalize cfg (rn ++ dot :: pn) with
       | .error _ => .error .invalidRequest
       | .ok name =>
         if nameExists cfg st name then .error .invalidRequest
         else if !cfg.addrOk ra then .error .invalidRequest
-        else match setNameRecord cfg st name ra restricted with
+        else match setNameRecord cfg st name (cfg.canon ra) restricted with
           | .error _ => .error .invalidRequest
           | .ok st => .ok st
 
@@ -322,15 +337,16 @@ def deleteName (st : State κ) (rn : Bytes) (ra : Addr) : Except Err (State κ) 
   | .ok name =>
     if !cfg.addrOk ra then .error .invalidRequest
     else if !nameExists cfg st name then .error .invalidRequest
-    else if !resolvesTo cfg st name ra then .error .unauthorized
+    else if !resolvesTo cfg st name (cfg.canon ra) then .error .unauthorized
     else match deleteRecord cfg st name with
       | .error _ => .error .invalidRequest
       | .ok st' =>
-        if !cfg.hasAccount ra then .error .other
-        else if !resolvesTo cfg st' name ra && nameExists cfg st' name then .error .other
+        if !cfg.hasAccount (cfg.canon ra) then .error .other
+        else if !resolvesTo cfg st' name (cfg.canon ra) && nameExists cfg st' name then .error .other
         else .ok st'
 
-/-- `msgServer.ModifyName` (msg_server.go:163). -/
+/-- `msgServer.ModifyName` (msg_server.go:163).  The authority is compared AS WRITTEN with the
+stored (canonical) owner string; the new owner is parsed. -/
 def modifyName (st : State κ) (authority : Addr) (name : Bytes) (addr : Addr) (restricted : Bool) :
     Except Err (State κ) :=
   match getRecordByName cfg st name with
@@ -338,7 +354,7 @@ def modifyName (st : State κ) (authority : Addr) (name : Bytes) (addr : Addr) (
   | some existing =>
     if authority ≠ cfg.authority ∧ authority ≠ existing.addr then .error .unauthorized
     else if !cfg.addrOk addr then .error .invalidRequest
-    else match updateNameRecord cfg st name addr restricted with
+    else match updateNameRecord cfg st name (cfg.canon addr) restricted with
       | .error _ => .error .invalidRequest
       | .ok st => .ok st
 
@@ -366,6 +382,23 @@ def apply (st : State κ) (op : Op) : State κ :=
 
 /-- state after a history of messages. -/
 def run (st : State κ) (ops : List Op) : State κ := ops.foldl (apply cfg) st
+
+/-- `Keeper.InitGenesis` (genesis.go:10) after `SetParams` (the limits of `cfg` are the genesis
+file's parameters): every binding's address string is parsed and the binding goes through
+`SetNameRecord`, which normalizes the name and stores the CANONICAL address string — whatever
+spelling the genesis file used.  `.error e` = the chain start panics with that error.  No parent
+check: a genesis file may bind a name whose parent is not bound. -/
+def initGenesis (st : State κ) : List Record → Except Err (State κ)
+  | [] => .ok st
+  | b :: rest =>
+    if !cfg.addrOk b.addr then .error .other
+    else match setNameRecord cfg st b.name (cfg.canon b.addr) b.restricted with
+      | .error e => .error e
+      | .ok st => initGenesis st rest
+
+/-- `GenesisState.Validate` (types/genesis.go:46): no blank name, no blank address. -/
+def validateGenesis (bindings : List Record) : Bool :=
+  bindings.all fun b => !blank b.name && !blankAddr b.addr
 
 end
 
